@@ -23,6 +23,8 @@ const LAYOUTS = {
   as_is: (s) => s,
   break_after_operators: (s) => s.includes('`') ? s : tokenize(s).map((t) => BREAK_AFTER.has(t) ? t + '\n      ' : t).join(''),
   break_before_dot: (s) => s.includes('`') ? s : tokenize(s).map((t, i, a) => (t === '.' || t === '?.') && /[\w)\]]$/.test(a[i - 1] || '') && !/^\d/.test(a[i - 1] || '') ? '\n        ' + t : t).join(''),
+  // every statement starts at column 0 of a line of its own (the byte before it is the previous line's terminator)
+  column0: (s) => s.includes('`') ? s : s.replace(/\n {2}/g, '\n').replace(/; /g, ';\n').replace(/\{ /g, '{\n'),
   crlf: (s) => s.replace(/\n/g, '\r\n'),
   tabs: (s) => s.replace(/\n {2}/g, '\n\t\t').replace(/; /g, ';\t'),
   leading_lines: (s) => '\n\n// leading comment\n/* block\n comment */\n\n' + s,
